@@ -69,6 +69,26 @@ claimed = {
    text="Bounded symbolic model checking of Document.Warnings on the real SSA: families and individuals whose exact dates have a symbolic day (1..28), month and year by choice: child-born-before-parent iff the child's birthday is earlier, once per parent and naming the right people, under 3 record orders and either parent; siblings-too-close iff 2 days..9 months apart once per pair; married too young / too old; individual too old; wrong event order; one unparsable-date warning per bad date; multiple sexes; inverted spouses for all 16 sex combinations. Before/after = calendar order is proved in the same check (VerifC05_Order) and used as a lemma.",
    ref="DESIGN.md §3 C20", note="Years are choices (a symbolic year makes every age computation a multi-second query); dates within a few days of a threshold are excluded (float age arithmetic is modelled with sound rounding slack). " + NOTE_COMMON),
 }
+EXTRA = {
+ "C01": " A family record nested below other records (with its husband / wife / child lines, with or without a root family before it) is a further case.",
+ "C02": " Near-grammar files (runs of blanks and tabs, hostile xref bytes, white space outside ASCII around a value) must decode to a tree whose encoding is a fixpoint and whose values are trimmed.",
+ "C03": " Level numbers of up to 21 symbolic digits cover every number up to and beyond the 64-bit range (saturation and wrap-around).",
+ "C07": " Re-ordering is also checked one level down for every node kind; the exact years include 0000.",
+ "C08": " Nodes whose equality looks below them (EVEN, BIRT, RESI) are compared with copies whose grandchildren are re-ordered, up to four levels deep, through CompareNodes, String, Sort and DeepEqual, with both inputs re-read afterwards.",
+ "C09": " The exported merge function is also applied directly to the caller's nodes (arguments untouched, result fresh).",
+ "C10": " A second harness matches people by unique identifiers against what their pointers say (swapped pointers, twins, renumbered copies) and renumbers only the family record.",
+ "C12": " Lists of 3..5 siblings and 4x4 lists with tied scores (symmetry under the library's own sort algorithms, which the engine executes as ported), the surrounding similarity over 16 family shapes, and weight vectors on a grid of quarters (zero weights) are further harnesses.",
+ "C13": " The second session widened the alphabet to 24 edit operations (name / date / sex setters, pointer setters, Document.SetNodes / AddNode, a symbolic pointer), added a three-generation base document and compares every reading of the views with a second reading.",
+ "C14": " Publish also runs with a symbolic surname initial (two-byte characters U+00C0..U+00FF, printable ASCII) and with surnames of one or two symbolic bytes (symbols only).",
+ "C15": " Every program of 1..3 variable definitions over two names and nine bodies (24,696 programs) and the names of struct fields (exported and unexported) as accessors are further harnesses.",
+ "C16": " The operator laws are also checked on every pair of two-byte characters of six blocks (Latin-1, Latin extended-A, Greek, Cyrillic).",
+ "C17": " The living person has places below events, attributes and citations, and end-of-life events without a death record.",
+ "C18": " The pointer of an individual without a name is a further tainted value (publish and diff report).",
+ "C19": " The real DirectoryFileWriter runs on a modelled file system (publishing into a directory that already holds another site); a person named like a place and places in several spellings are part of the name and determinism cases; writer faults are also replayed natively on every path.",
+ "C20": " Three siblings in every order of the CHIL lines and marriages with unusable dates are further harnesses.",
+}
+for _pid, _t in EXTRA.items():
+    claimed[_pid]["text"] += _t
 RACE_TECH = "; schedules are decision variables of the same exploration (bounded pre-emption); a happens-before (vector clock) monitor reports unordered conflicting accesses of the explored executions, each confirmed with go test -race"
 NA = {}
 checks = []
